@@ -347,23 +347,35 @@ def list_versions_replay(times, pages, start, end, marker=0):
 
 
 def blocklisted_count_changes_other_categories(factor=50):
-    """nonparametric, outlier models on: multiply the count of ONE blocklisted reporting unit; no other unit may move"""
-    base = synthetic(80, seed=5, states=("AA",))
-    cur = feed(base, [100] * 60 + [30] * 20, seed=2)
-    blk = [base.geographic_unit_fips[7]]
-    out = {"exc": None}
+    """nonparametric, outlier models on: multiply the count of ONE excluded reporting unit -- excluded through the unit
+    blocklist, and (second scenario) through a blocklisted STATE with several reporting units; no other unit may move"""
+    out = {"exc": None, "changed_other_units": 0, "scenarios": {}}
     try:
-        cats = []
-        for f in (1, factor):
-            c2 = cur.copy()
-            m = c2.geographic_unit_fips == blk[0]
-            for col in ("results_turnout", "results_dem", "results_gop"):
-                c2.loc[m, col] = c2.loc[m, col] * f
-            _, r = run_client(c2, base, estimands=("turnout",), prediction_intervals=(0.7,), model_parameters={"fit_margin_outlier_model": False, "fit_turnout_outlier_model": True, "unit_blocklist": blk})
-            cats.append(r["unit_data"].set_index("geographic_unit_fips")["unit_category"])
-        a, b = cats
-        others = [i for i in a.index if i != blk[0]]
-        out["changed_other_units"] = int((a.loc[others] != b.loc[others]).sum())
+        for via in ("unit_blocklist", "postal_code_blocklist"):
+            if via == "unit_blocklist":
+                base = synthetic(80, seed=5, states=("AA",))
+                cur = feed(base, [100] * 60 + [30] * 20, seed=2)
+                victim = base.geographic_unit_fips[7]
+                params = {"unit_blocklist": [victim]}
+            else:
+                base = synthetic(90, seed=6, states=("AA", "BB"))
+                cur = feed(base, [100] * 70 + [30] * 20, seed=3)
+                bb = base[base.postal_code == "BB"].geographic_unit_fips.tolist()
+                victim = bb[2]
+                params = {"postal_code_blocklist": ["BB"]}
+            cats = []
+            for f in (1, factor):
+                c2 = cur.copy()
+                m = c2.geographic_unit_fips == victim
+                for col in ("results_turnout", "results_dem", "results_gop"):
+                    c2.loc[m, col] = c2.loc[m, col] * f
+                _, r = run_client(c2, base, estimands=("turnout",), prediction_intervals=(0.7,), model_parameters=dict({"fit_margin_outlier_model": False, "fit_turnout_outlier_model": True}, **params))
+                cats.append(r["unit_data"].set_index("geographic_unit_fips")["unit_category"])
+            a, b = cats
+            others = [i for i in a.index if i != victim]
+            n = int((a.loc[others] != b.loc[others]).sum())
+            out["scenarios"][via] = n
+            out["changed_other_units"] += n
     except Exception as e:  # noqa
         out["exc"] = f"{type(e).__name__}: {e}"
     return out
@@ -1366,6 +1378,37 @@ def unit_interval_floor_replay(pi_method="nonparametric", alpha=0.9):
         out["violations"] = [{"unit": int(i), "counted": float(res[i]), "pred": float(pr[i]), "lower": float(lo[i]), "upper": float(up[i])} for i in bad[:3]]
         out["whole"] = bool(np.all(lo == np.round(lo)) and np.all(up == np.round(up)))
         out["ok"] = bool(not bad and out["whole"])
+    except Exception as e:  # noqa
+        out["exc"] = f"{type(e).__name__}: {e}"
+        out["ok"] = False
+    return out
+
+
+def zero_baseline_count_changes_other_units(pi_method="bootstrap"):
+    """REAL client, margin estimand, both outlier models on: change the dem / gop counts of ONE reporting unit whose
+    baseline is zero (excluded from modelling as 'non-modeled: zero baseline'); no other unit's category or prediction
+    may change"""
+    base = synthetic(60, seed=9, states=("AA",))
+    z = base.geographic_unit_fips[5]
+    base.loc[5, ["baseline_dem", "baseline_gop", "baseline_turnout"]] = 0
+    base.loc[5, "baseline_normalized_margin"] = 0.0
+    cur = feed(base, [100] * 45 + [30] * 15, seed=4)
+    out = {"exc": None}
+    try:
+        tabs = []
+        for dem, gop in ((10, 10), (4000, 10)):
+            c = cur.copy()
+            m = c.geographic_unit_fips == z
+            c.loc[m, "results_dem"], c.loc[m, "results_gop"], c.loc[m, "results_turnout"] = dem, gop, dem + gop
+            _, r = run_client(c, base, estimands=("margin",), pi_method=pi_method, prediction_intervals=(0.7,), features=("baseline_normalized_margin",), model_parameters={"fit_margin_outlier_model": True, "fit_turnout_outlier_model": True, "B": 20})
+            tabs.append(r["unit_data"].set_index("geographic_unit_fips"))
+        a, b = tabs
+        others = [i for i in a.index if i != z]
+        pcol = [c for c in a.columns if c.startswith("pred_")][0]
+        out["category_of_the_unit"] = [str(a.loc[z, "unit_category"]), str(b.loc[z, "unit_category"])]
+        out["changed_categories"] = [(i, str(a.loc[i, "unit_category"]), str(b.loc[i, "unit_category"])) for i in others if a.loc[i, "unit_category"] != b.loc[i, "unit_category"]][:3]
+        out["changed_predictions"] = int((a.loc[others, pcol] != b.loc[others, pcol]).sum())
+        out["ok"] = bool(not out["changed_categories"] and out["changed_predictions"] == 0)
     except Exception as e:  # noqa
         out["exc"] = f"{type(e).__name__}: {e}"
         out["ok"] = False
